@@ -37,12 +37,24 @@ RUNS = {  # property -> (quick workloads, thorough workloads); thorough aims at 
     "C18": (400, 4000),
 }
 
-PER_RUN_TIMEOUT = 600
+PER_RUN_TIMEOUT = {"quick": 600, "thorough": 1800}
+_BEACON_DIR = [None]
 
 
-def _worker_init():
+def _worker_init(beacon_dir=None):
     faulthandler.enable()
+    _BEACON_DIR[0] = beacon_dir
     rt.init_jax()
+
+
+def _beacon(seed):
+    """Which seed this worker is executing right now - read by the parent if the worker dies."""
+    if _BEACON_DIR[0]:
+        try:
+            with open(os.path.join(_BEACON_DIR[0], f"{os.getpid()}"), "w") as fh:
+                fh.write(str(seed))
+        except OSError:
+            pass
 
 
 def _load(prop):
@@ -60,12 +72,13 @@ def worker_chunk(args):
     mod, kw = _load(prop)
     out = []
     for seed in seeds:
+        _beacon(seed)
         if os.environ.get("GTSIM_TEST_KILL") == str(seed):  # self-test of the pool-restart path only
             flag = os.environ.get("GTSIM_TEST_KILL_FLAG", "/tmp/gtsim_kill_flag")
             if os.environ.get("GTSIM_TEST_KILL_ALWAYS") or not os.path.exists(flag):
                 open(flag, "w").close()
                 os._exit(1)
-        faulthandler.dump_traceback_later(PER_RUN_TIMEOUT, exit=True)
+        faulthandler.dump_traceback_later(PER_RUN_TIMEOUT.get(tier, 600), exit=True)
         try:
             r = mod.run(seed, tier, **kw)
         except Exception:
@@ -82,6 +95,7 @@ def worker_chunk(args):
             r["violation"]["prior_seeds_in_worker"] = list(_SEEDS_RUN_IN_THIS_PROCESS)
         _SEEDS_RUN_IN_THIS_PROCESS.append(int(seed))
         out.append(r)
+    _beacon("idle")
     return out
 
 
@@ -144,6 +158,18 @@ class Budget(Exception):
     pass
 
 
+def _read_beacons(d):
+    out = []
+    try:
+        for f in os.listdir(d):
+            v = open(os.path.join(d, f)).read().strip()
+            if v and v != "idle":
+                out.append(int(v))
+    except Exception:
+        pass
+    return sorted(out)
+
+
 def run_check(prop, tier="quick", base_seed=0, runs=None, workers=None, wall=None, out=sys.stdout):
     t0 = time.time()
     workers = workers or min(16, os.cpu_count() or 4)
@@ -157,7 +183,10 @@ def run_check(prop, tier="quick", base_seed=0, runs=None, workers=None, wall=Non
     status = 0
     violations = []
     print(f"gtsim: property={prop} tier={tier} VERIF_SEED={base_seed} runs={n} workers={workers} tree={rt.tree_under_test()}", file=out, flush=True)
-    ex = cf.ProcessPoolExecutor(max_workers=workers, mp_context=ctx, initializer=_worker_init)
+    import tempfile
+
+    beacons = tempfile.mkdtemp(prefix="gtsim_beacon_")
+    ex = cf.ProcessPoolExecutor(max_workers=workers, mp_context=ctx, initializer=_worker_init, initargs=(beacons,))
     try:
         remaining = set(range(len(chunks)))
         pool_restarts = 0
@@ -192,9 +221,10 @@ def run_check(prop, tier="quick", base_seed=0, runs=None, workers=None, wall=Non
                 pool_restarts += 1
                 if pool_restarts > 1:
                     raise
-                print(f"NOTE: a worker process died; restarting the pool once for {len(remaining)} unfinished chunks", file=out, flush=True)
+                print(f"NOTE: a worker process died; restarting the pool once for {len(remaining)} unfinished chunks; "
+                      f"seeds in flight: {_read_beacons(beacons)}", file=out, flush=True)
                 ex.shutdown(wait=False, cancel_futures=True)
-                ex = cf.ProcessPoolExecutor(max_workers=workers, mp_context=ctx, initializer=_worker_init)
+                ex = cf.ProcessPoolExecutor(max_workers=workers, mp_context=ctx, initializer=_worker_init, initargs=(beacons,))
         agg.extra["pool_restarts"] += pool_restarts
         # ---- violations: one per class, minimised, replay-verified
         if violations and status != 2:
@@ -265,10 +295,13 @@ def run_check(prop, tier="quick", base_seed=0, runs=None, workers=None, wall=Non
         print(f"HARNESS-TIMEOUT wall budget {wall}s exhausted", file=out, flush=True)
         status = 2
     except cf.process.BrokenProcessPool:
-        print("HARNESS-ERROR worker process died (per-run timeout or crash)", file=out, flush=True)
+        print(f"HARNESS-ERROR worker process died (per-run timeout or crash); seeds in flight: {_read_beacons(beacons)}", file=out, flush=True)
         status = 2
     finally:
         ex.shutdown(wait=True, cancel_futures=True)
+        import shutil
+
+        shutil.rmtree(beacons, ignore_errors=True)
     agg.write(time.time() - t0, status)
     print(f"gtsim: done status={status} runs={agg.n} wall={time.time()-t0:.1f}s nontrivial_distinct={len(agg.sigs)} "
           f"discarded={agg.discarded} known_hits={dict(agg.known_hits)}", file=out, flush=True)
